@@ -246,7 +246,7 @@ def _trans_order(sim, first_paths: list[tuple], second_paths: list[tuple]):
     for t in mm.transactions:
         ms = mm.methods_by_transaction[t]
         i = [b1[x] for x in ms if x in b1]
-        if len(i) != 1:
+        if len(i) != 1 or (not second_paths and len(ms) < 2):  # (a competing caller only calls the target)
             continue
         if second_paths:
             j = [b2[x] for x in ms if x in b2]
@@ -260,8 +260,97 @@ def _trans_order(sim, first_paths: list[tuple], second_paths: list[tuple]):
     return order, [pairs[idx].run for idx in sorted(pairs)]
 
 
+class _CompWrap(Elaboratable):
+    """The test circuit plus one competing `AdapterTrans` per target method, declared before or after it."""
+
+    def __init__(self, circ, comps, first: bool):
+        self.circ, self.comps, self.first = circ, comps, first
+
+    def elaborate(self, platform):
+        from amaranth import Module
+
+        m = Module()
+        if self.first:
+            for j, c in enumerate(self.comps):
+                m.submodules[f"comp{j}"] = c
+        m.submodules.circ = self.circ
+        if not self.first:
+            for j, c in enumerate(self.comps):
+                m.submodules[f"comp{j}"] = c
+        return m
+
+
+def _with_comps(make, decl: str):
+    """CompSim of `make()` whose target methods are ALSO called by competing AdapterTrans transactions
+    (paths `("comp", j)`); returns (sim, cf) with cf[j] = the competitor of target j precedes the transformer's
+    transaction(s) using target j in the real manager's priority order."""
+    from transactron.lib.adapters import AdapterTrans
+    from transactron.testing.testbenchio import TestbenchIO
+    from transactron.core.manager import MethodMap as MM, TransactionManager
+
+    comps: list = []
+
+    def wrap(circ, dut):
+        ts = list(dut.targets) if hasattr(dut, "targets") else [dut.target]
+        comps.extend(TestbenchIO(AdapterTrans.create(t)) for t in ts)
+        return _CompWrap(circ, comps, decl == "first")
+
+    sim = CompSim(make, wrap=wrap)
+    for j, c in enumerate(comps):
+        sim.tbs[("comp", j)] = c
+    tm = sim.tctx.transaction_manager
+    mm = MM(tm.transactions, tm.methods)
+    _, porder = TransactionManager._conflict_graph(mm)
+    cf = []
+    for j, c in enumerate(comps):
+        tbody = c.adapter.iface._body
+        users = [t for t in mm.transactions if tbody in mm.methods_by_transaction[t]]
+        mbody = sim.dut.method._body
+        mine = [
+            t for t in users
+            if t.name.startswith("AdapterTrans") and mbody not in mm.methods_by_transaction[t]
+            and len(mm.methods_by_transaction[t]) == 1
+        ]
+        others = [t for t in users if t not in mine]
+        assert len(mine) == 1 and others, (len(mine), len(others))
+        cf.append(int(porder[mine[0]] < min(porder[t] for t in others)))
+    return sim, cf
+
+
 def _build(kind: str, d: dict):
     """Elaborate the real component for configuration `d` (cached per configuration)."""
+    if "cdecl" in d:
+        d0 = {k: v for k, v in d.items() if k not in ("cdecl", "cf")}
+        def make():
+            # the plain builder creates a CompSim; we only need its dut factory, so rebuild the dut here
+            return _make_dut(kind, d0)
+
+        sim, cf = _with_comps(make, d["cdecl"])
+        order = None
+        if kind == "collector":
+            order = _trans_order(sim, [("targets", i) for i in range(d["n"])], [])[0]
+            # the connecting transactions are those that also call forwarder.write; competitors call one method
+        return sim, (order, cf)
+    return _build_plain(kind, d)
+
+
+def _make_dut(kind: str, d: dict):
+    from transactron.lib.transformers import MethodFilter, MethodProduct, MethodTryProduct, Collector
+
+    w = d["w"]
+    L = [("data", w)]
+    if kind == "filter":
+        return MethodFilter(L, L, cond_hw(d["cond"], w), default={"data": d["def"]}, use_condition=bool(d["uc"]))
+    if kind == "product":
+        return MethodProduct(L, (L,) * d["n"], comb_hw(d["comb"], w))
+    if kind == "tryproduct":
+        return MethodTryProduct(L, (L,) * d["n"], tcomb_hw(d["comb"], w, d["n"]))
+    if kind == "collector":
+        return Collector(d["n"], L)
+    raise ValueError(kind)
+
+
+def _build_plain(kind: str, d: dict):
     from transactron.lib.transformers import (
         MethodMap,
         MethodFilter,
@@ -356,14 +445,27 @@ def impl(case: Case) -> list[str]:
 
         return pre
 
+    comp = "cdecl" in d
+    ncomp = (1 if kind == "filter" else d.get("n", 0)) if comp else 0
+
+    def comp_ops(o):
+        return {("comp", j): v for j, v in enumerate(_olist(o["catt"]))} if comp else {}
+
+    def comp_bits(r):
+        return [int(r[("comp", j)] is not None) for j in range(ncomp)]
+
+    def csuffix(r):
+        return " c=" + "".join(map(str, comp_bits(r))) if comp else ""
+
     if kind in ("map", "filter"):
         ops = [
-            {"method": None if o["call"] == "-" else int(o["call"]), "target": int(o["tret"]) if o["trdy"] == "1" else None}
+            {"method": None if o["call"] == "-" else int(o["call"]), "target": int(o["tret"]) if o["trdy"] == "1" else None,
+             **comp_ops(o)}
             for o in lines
         ]
         tr = sim.run(ops, pre_cycle=drive_all(lambda o: {("target",): int(o["tret"])}))
         for r in tr:
-            out.append(f"m={_fo(r[('method',)])} t={_fo(r[('target',)])}")
+            out.append(f"m={_fo(r[('method',)])} t={_fo(r[('target',)])}{csuffix(r)}")
     elif kind in ("product", "tryproduct"):
         n = d["n"]
         ops = []
@@ -371,10 +473,11 @@ def impl(case: Case) -> list[str]:
             rd, rt = _bits(o["trdy"]), _ilist(o["tret"])
             op = {("targets", i): (rt[i] if rd[i] else None) for i in range(n)}
             op[("method",)] = None if o["call"] == "-" else int(o["call"])
+            op.update(comp_ops(o))
             ops.append(op)
         tr = sim.run(ops, pre_cycle=drive_all(lambda o: {("targets", i): v for i, v in enumerate(_ilist(o["tret"]))}))
         for r in tr:
-            out.append(f"m={_fo(r[('method',)])} t={_fl(r[('targets', i)] for i in range(n))}")
+            out.append(f"m={_fo(r[('method',)])} t={_fl(r[('targets', i)] for i in range(n))}{csuffix(r)}")
     elif kind == "nonex":
         k = d["k"]
         ops = []
@@ -421,12 +524,14 @@ def impl(case: Case) -> list[str]:
             rd, rt = _bits(o["trdy"]), _ilist(o["tret"])
             op = {("targets", i): (rt[i] if rd[i] else None) for i in range(n)}
             op[("method",)] = 0 if o["rd"] == "1" else None
+            op.update(comp_ops(o))
             ops.append(op)
         tr = sim.run(ops, pre_cycle=drive_all(lambda o: {("targets", i): v for i, v in enumerate(_ilist(o["tret"]))}))
         for r in tr:
-            out.append(
-                f"t={''.join('0' if r[('targets', i)] is None else '1' for i in range(n))} rd={_fo(r[('method',)])}"
-            )
+            cb = comp_bits(r) if comp else [0] * n
+            # called by the collector = the target ran and its competing caller did not
+            own = ["0" if r[("targets", i)] is None or cb[i] else "1" for i in range(n)]
+            out.append(f"t={''.join(own)} rd={_fo(r[('method',)])}{csuffix(r)}")
     else:
         raise ValueError(kind)
     return out
@@ -445,6 +550,14 @@ def monitor(case: Case, out: list[str]) -> Optional[str]:
         i = _kv(op)
         o = dict(x.split("=", 1) for x in ob.split())
         where = f"{kind} cycle {k} [{op}] -> [{ob}]: "
+        # competing callers of the targets (if any): cdone[j] = the competitor's call to target j executed
+        catt = _olist(i["catt"]) if "catt" in i else []
+        cdone = [c == "1" for c in o.get("c", "")]
+        if catt:
+            trd = [i["trdy"] == "1"] if kind == "filter" else [b == 1 for b in _bits(i["trdy"])]
+            for j, cd in enumerate(cdone):
+                if cd and (catt[j] is None or not trd[j]):
+                    return where + f"competitor of target {j} executes without attempting / with the target not ready"
         if kind == "connect":
             # transfers data between the two methods exactly when both can run
             both = i["r1"] == "1" and i["r2"] == "1"
@@ -487,17 +600,21 @@ def monitor(case: Case, out: list[str]) -> Optional[str]:
         elif kind == "filter":
             w = d["w"]
             if i["call"] == "-":
-                if o["m"] != "-" or o["t"] != "-":
+                if o["m"] != "-" or (o["t"] != "-" and not (cdone and cdone[0])):
                     return where + "something executes without a call"
                 continue
             a = int(i["call"])
             holds = cond_ref(d["cond"], w, a) != 0
-            rdy = i["trdy"] == "1"
+            # the target is available to the filter iff it is ready and not taken by the competing caller
+            rdy = i["trdy"] == "1" and not (cdone and cdone[0])
             done = (rdy or not holds) if d["uc"] else rdy
             if (o["m"] != "-") != done:
                 return where + f"executed={o['m'] != '-'} but condition={holds} target ready={rdy} use_condition={d['uc']}"
-            if (o["t"] != "-") != (done and holds):
-                return where + f"target called={o['t'] != '-'} but condition={holds} executed={done}"
+            own = o["t"] != "-" and not (cdone and cdone[0])  # the target ran and it was not the competitor's call
+            if cdone and cdone[0] and (o["t"] == "-" or int(o["t"]) != catt[0]):
+                return where + "competitor executes but the target did not receive its argument"
+            if own != (done and holds):
+                return where + f"target called by the filter={own} but condition={holds} executed={done}"
             if done and holds and (int(o["t"]) != a or o["m"] != i["tret"]):
                 return where + "call not forwarded unchanged"
             if done and not holds and int(o["m"]) != d["def"]:
@@ -505,7 +622,15 @@ def monitor(case: Case, out: list[str]) -> Optional[str]:
         elif kind in ("product", "tryproduct"):
             w, n = d["w"], d["n"]
             rd, rt = _bits(i["trdy"]), _ilist(i["tret"])
-            tc = _olist(o["t"])
+            seen = _olist(o["t"])
+            cd = cdone or [False] * n
+            for j in range(n):
+                if cd[j] and seen[j] != catt[j]:
+                    return where + f"competitor of target {j} executes but the target did not receive its argument"
+            # the transformer's OWN calls: the target ran and it was not the competitor's call
+            tc = [None if cd[j] else seen[j] for j in range(n)]
+            # a target is available to the transformer iff it is ready and not taken by a competing caller
+            rd = [int(rd[j] and not cd[j]) for j in range(n)]
             if i["call"] == "-":
                 if o["m"] != "-" or any(x is not None for x in tc):
                     return where + "something executes without a call"
@@ -524,9 +649,13 @@ def monitor(case: Case, out: list[str]) -> Optional[str]:
                     return where + "try-product did not execute"
                 for j in range(n):
                     if (tc[j] is not None) != bool(rd[j]) or (rd[j] and tc[j] != a):
-                        return where + f"target {j}: ready={rd[j]} called with {tc[j]}"
-                if int(o["m"]) != tcomb_ref(d["comb"], w, n, list(zip(rd, rt))):
-                    return where + "result is not combiner(success bits, results)"
+                        return where + f"target {j}: available={rd[j]} called by the try-product with {tc[j]}"
+                # "reports which succeeded": success bit j iff the try-product's own call to target j executed
+                succ = [int(x is not None) for x in tc]
+                if int(o["m"]) != tcomb_ref(d["comb"], w, n, list(zip(succ, rt))):
+                    return where + (
+                        f"result is not combiner(success bits, results) with success = own executed calls {succ}"
+                    )
         elif kind == "nonex":
             cs = _olist(i["calls"])
             res = _olist(o["c"])
@@ -553,8 +682,11 @@ def monitor(case: Case, out: list[str]) -> Optional[str]:
                 produced.append(rt[j])
             if called and pending:
                 return where + "a target is called while a result is still buffered"
-            if not called and not pending and any(rd):
-                return where + "buffer empty and a target ready, yet none is called"
+            cd = cdone or [False] * len(rd)
+            if any(cd[j] for j in called):
+                return where + "a target serves the collector and its competing caller in one cycle"
+            if not called and not pending and any(r and not c for r, c in zip(rd, cd)):
+                return where + "buffer empty and a target ready (not taken by a competitor), yet none is called"
             can_read = len(produced) > len(delivered)
             if (o["rd"] != "-") != (i["rd"] == "1" and can_read):
                 return where + f"read attempted={i['rd']} executed={o['rd'] != '-'} but result available={can_read}"
@@ -571,6 +703,14 @@ def nontrivial(case: Case, out: list[str]) -> bool:
     kind = case.desc["component"]
     obs = [dict(x.split("=", 1) for x in ob.split()) for ob in out[1:]]
     ins = [_kv(op) for op in case.ops]
+    if "cdecl" in case.desc:
+        # contention: a competing caller and the transformer want the same ready target in one cycle
+        def contended(i):
+            want = i.get("call", "0") != "-"
+            rd = i["trdy"]
+            return want and any(a != "-" and rd[j] == "1" for j, a in enumerate(i["catt"].split(",")))
+
+        return any(contended(i) for i in ins)
     if kind in ("map", "filter", "product"):
         # the method both executes and is blocked by a target in the same case
         return any(o["m"] != "-" for o in obs) and any(i["call"] != "-" and o["m"] == "-" for i, o in zip(ins, obs))
@@ -599,9 +739,11 @@ def _cfg(kind: str, d: dict) -> tuple[str, dict]:
     d = dict(d, component=kind)
     if kind in ("crossbar", "collector"):
         d["order"] = sched_order(kind, d)
+    if "cdecl" in d:
+        d["cf"] = "".join(map(str, _get(kind, d)[1][1]))
     toks = [f"comp={kind}"]
     for k, v in d.items():
-        if k in ("component", "multibit"):
+        if k in ("component", "multibit", "cdecl"):
             continue
         toks.append(f"{k}={','.join(map(str, v)) if isinstance(v, list) else v}")
     return "cfg " + " ".join(toks), d
@@ -740,6 +882,54 @@ def gen_cases(ctx: Check, rng, thorough: bool) -> list[Case]:
     return cases
 
 
+def _catts(rng, n: int, w: int, pattern: str) -> str:
+    return ",".join(str(rng.randrange(1 << w)) if b == "1" else "-" for b in pattern)
+
+
+def gen_comp_cases(rng, thorough: bool) -> list[Case]:
+    """Every transformer once more with a competing caller (an extra AdapterTrans) on each target, declared before
+    and after the transformer so that it wins the arbitration in one of the two circuits: all readiness patterns x
+    all patterns of attempting competitors."""
+    cases: list[Case] = []
+    nmax = 3 if not thorough else 4
+    for decl in ("first", "after"):
+        for n in range(1, nmax + 1):
+            w = rng.choice([2, 3, 4])
+            for kind, comb in (("tryproduct", rng.choice(["bits", "both"])), ("tryproduct", "msum"),
+                               ("product", rng.choice(["first", "add", "xor"])))[: (3 if thorough or n > 1 else 2)]:
+                ops = []
+                for p in _patterns(n):
+                    for q in _patterns(n):
+                        ops.append(f"cyc call={rng.randrange(1 << w)} trdy={p} tret={_vals(rng, w, n)} catt={_catts(rng, n, w, q)}")
+                        if rng.random() < 0.25:
+                            ops.append(f"cyc call=- trdy={p} tret={_vals(rng, w, n)} catt={_catts(rng, n, w, q)}")
+                cases.append(_case(kind, {"w": w, "n": n, "comb": comb, "cdecl": decl}, ops, "exhaustive"))
+            # collector: every readiness x competitor pattern, buffer empty and full, then a random history
+            ops = []
+            for p in _patterns(n):
+                for q in _patterns(n):
+                    for rd in (0, 1):
+                        ops.append(f"cyc trdy={'0' * n} tret={_vals(rng, w, n)} rd=1 catt={_catts(rng, n, w, '0' * n)}")
+                        ops.append(f"cyc trdy={p} tret={_vals(rng, w, n)} rd={rd} catt={_catts(rng, n, w, q)}")
+                        ops.append(f"cyc trdy={p} tret={_vals(rng, w, n)} rd={rd} catt={_catts(rng, n, w, q)}")
+            for _ in range(30 if not thorough else 300):
+                ops.append(
+                    f"cyc trdy={rng.choice(_patterns(n))} tret={_vals(rng, w, n)} rd={int(rng.random() < 0.6)} "
+                    f"catt={_catts(rng, n, w, rng.choice(_patterns(n)))}"
+                )
+            cases.append(_case("collector", {"n": n, "w": w, "cdecl": decl}, ops, "exhaustive"))
+        for uc in (0, 1):
+            for _ in range(2 if not thorough else 4):
+                w = rng.choice([2, 3])
+                d = {"w": w, "cond": _rand_cond(rng, w, multibit=True), "def": rng.randrange(1 << w), "uc": uc, "cdecl": decl}
+                ops = [
+                    f"cyc call={c} trdy={r} tret={rng.randrange(1 << w)} catt={_catts(rng, 1, w, q)}"
+                    for c in ["-", *range(1 << w)] for r in (0, 1) for q in "01"
+                ]
+                cases.append(_case("filter", d, ops, "exhaustive"))
+    return cases
+
+
 def gen_regression_cases(rng) -> list[Case]:
     """MethodFilter(use_condition=True) with a condition value wider than one bit: the region of the repaired
     defect F-b6-1 (the condition used to be truncated to its LSB); ordinary monitored cases now."""
@@ -752,7 +942,7 @@ def gen_regression_cases(rng) -> list[Case]:
 
 def more_cases(case: Case, rng):
     """Failing-input search around a diverging case: the same configuration with fresh stimulus."""
-    d = {k: v for k, v in case.desc.items() if k not in ("component", "order", "multibit")}
+    d = {k: v for k, v in case.desc.items() if k not in ("component", "order", "multibit", "cf")}
     kind = case.desc["component"]
     for _ in range(20):
         n = d.get("n", d.get("k", 1))
@@ -788,6 +978,9 @@ def more_cases(case: Case, rng):
                 f"cyc trdy={rng.choice(_patterns(n))} tret={_vals(rng, w, n)} rd={int(rng.random() < 0.6)}"
                 for _ in range(200)
             ]
+        if "cdecl" in d:
+            nt = 1 if kind == "filter" else n
+            ops = [o + f" catt={_catts(rng, nt, w, rng.choice(_patterns(nt)))}" for o in ops]
         yield _case(kind, d, ops, "search")
 
 
@@ -797,14 +990,18 @@ def run(ctx: Check):
         "and result of every target + attempted calls); every readiness pattern of <= 4 targets is enumerated; "
         "non-trivial = the case shows the method both executing and being blocked (map/filter/product/connect), a "
         "partial success (try-product), >= 2 simultaneous callers (nonexclusive wrapper), a ready pair blocked by a "
-        "conflicting running pair or two pairs running (crossbar), both forwarding and buffering (collector)"
+        "conflicting running pair or two pairs running (crossbar), both forwarding and buffering (collector); "
+        "cases with competing callers of the targets (declared before and after the transformer): non-trivial = a "
+        "competitor and the transformer want the same ready target in one cycle"
     )
     ctx.proof_stage()
     ctx.replay_findings(replay_witness)
     rng = ctx.rng("gen")
-    cases = gen_cases(ctx, rng, ctx.thorough) + gen_regression_cases(ctx.rng("mb"))
+    cases = (
+        gen_cases(ctx, rng, ctx.thorough) + gen_regression_cases(ctx.rng("mb")) + gen_comp_cases(ctx.rng("comp"), ctx.thorough)
+    )
     for c in cases:
-        ctx.count(f"component_{c.desc['component']}")
+        ctx.count(f"component_{c.desc['component']}" + ("_with_competitors" if "cdecl" in c.desc else ""))
     procs = 1 if ctx.quick else 8
     lockstep(ctx, "transformers", "C18", cases, impl, monitor, more_cases, nontrivial, procs=procs)
     ctx.exhaustive = False
